@@ -95,6 +95,12 @@ const PROBES: &[&str] = &[
     "print(\"{} {} {}\", 1.5, [1, \"a\"], ja); print(\"{}\"); print(\"{} {}\", 1); [-(-5), -(2.5), !ja, !(1 < 2)]",
     "[type(1), type(1.5), type(\"a\"), type([1]), type(ja), type(functie() { 1 })]",
     "float(\"abc\")",
+    // error paths with several equally good candidates (repeated parameter names, undefined names next
+    // to declared names that differ in capitalisation only): whichever is reported, it is always the same
+    "functie f(a, b, c, a, b, c) { [a, b, c] } f(1, 2, 3, 4, 5, 6)",
+    "stel Totaal = 1; stel TOTAAL = 2; stel totaaL = 3; stel tOtaal = 4; totaal;",
+    "stel ab = 1; stel ba = 2; stel aB = 3; stel Ba = 4; functie g(ab, Ab, AB) { bA }; g(1, 2, 3)",
+    "functie f(x, y, x, y) { onbekend }; stel F = 1; stel ff = 2; f(1, 2, 3, 4) + FF",
     "stel i = 0; stel n = 0; zolang i < 3 { i = i + 1; functie g(a) { als a == 2 { volgende; }; [a, 2.5] }; g(i); n = n + 1; }; [string(n), i]",
     "stel i = 0; zolang i < 1 { i = i + 1; functie f() { stop } f() } \"klaar\"",
     "stel n = 0.0 / 0.0; stel i = 1.0 / 0.0; [n < 1.0, n <= 1.0, n > 1.0, n >= n, 1.0 <= n, n == n, n != n, i > n, i - i < 1.0, als n < 1.0 { 1 } anders { 2 }]",
